@@ -86,6 +86,12 @@ func (h *Handler) ServeHTTP(w http.ResponseWriter, r *http.Request) {
 }
 
 func (h *Handler) handleReport(w http.ResponseWriter, r *http.Request) error {
+	if s := r.Header.Get("Depth"); s != "" {
+		if _, err := internal.ParseDepth(s); err != nil {
+			return &internal.HTTPError{Code: http.StatusBadRequest, Err: err}
+		}
+	}
+
 	var report reportReq
 	if err := internal.DecodeXMLRequest(r, &report); err != nil {
 		return err
